@@ -478,9 +478,12 @@ size_t derTSIZEDec(size_t* val, const octet der[], size_t count, u32 tag)
 	der += t_count, count -= t_count;
 	// декодировать L
 	l_count = derLDec(&len, der, count);
-	if (l_count == SIZE_MAX || len > O_PER_S + 1)
+	if (l_count == SIZE_MAX || len == 0 || len > O_PER_S + 1)
 		return SIZE_MAX;
 	der += l_count, count -= l_count;
+	// значение выходит за буфер?
+	if (len > count)
+		return SIZE_MAX;
 	// декодировать V
 	{
 		register size_t v = 0;
